@@ -482,7 +482,7 @@ contract(
 contract(
     target='cgsmiles.read_fragments:read_fragments', trusted=True,
     params=[('fragment_str', None), ('all_atom', 'True'), ('fragment_dict', 'None')],
-    types={'fragment_str': 'Str', 'all_atom': 'Bool'}, returns='Dict[Str,Graph:tmpl]', modifies=[], allocates=True,
+    types={'fragment_str': 'Str', 'all_atom': 'Bool', 'fragment_dict': 'Opt[Dict[Str,Graph:tmpl]]'}, returns='Dict[Str,Graph:tmpl]', modifies=[], allocates=True,
     # whatever the fragment reader rejects (SyntaxError, TypeError for a malformed annotation, KeyError, ValueError, ...) propagates
     raises={'Exception': {'when': None}},
     notes='assumed: the fragment scanner / pysmiles reader; checked by the bounded tier (C08, C13, C14)',
@@ -516,7 +516,9 @@ contract(
         "reads = reads + 1",
         # ... the k-th string is the k-th one read, and it is read as atomistic exactly when it is the LAST string and the flag is set
         "assert arg_fragment_str == fragment_strings[idx] and idx == reads - 1",
-        "assert arg_all_atom == (idx == len(fragment_strings) - 1 and last_all_atom)"]},
+        "assert arg_all_atom == (idx == len(fragment_strings) - 1 and last_all_atom)",
+        # every level is read on its own: no fragment dict of another level is handed on
+        "assert arg_fragment_dict is None"]},
     loops={0: Loop(over='enumerate(fragment_strings)', invariant=["len(fragment_dicts) == _i0 and reads == _i0"])},
     examples=_ex_rfs,
 )
@@ -551,6 +553,8 @@ contract(
         # the graph handed in is not modified
         "forall_int(lambda n: node_unchanged(molecule_graph, n))",
     ],
+    # the same frame in a form the run-time monitor can evaluate
+    native_ensures=["n_nodes(molecule_graph) == old(n_nodes(molecule_graph)) and all(node_unchanged(molecule_graph, n) for n in nodes(molecule_graph))"],
     modifies=[], allocates=True,
     examples=_ex_init_resolver,
 )
